@@ -23,6 +23,11 @@ def cases(draw, tier):
     else:
         terms, flags = draw(gen.term_tables(m, 1, 10 if not big else 30, real_only=True))
         charge = None
+    g = draw(st.sampled_from([1.0, 1.0, 1.0, 1.0, 1e-12, 1e-9, 1e6]))
+    if g != 1.0:
+        # overall scale of the operator (hyperfine-size couplings / other units): exactness is relative to the operator's own scale
+        terms = [dict(t, f=[t["f"][0] * g, t["f"][1] * g]) for t in terms]
+        flags = list(flags) + [f"global_scale_{g:g}"]
     return {"model": m, "terms": terms, "flags": flags, "charge": charge,
             "topo": draw(T.topologies(m)), "topo2": draw(T.topologies(m)),
             "single_op": draw(st.booleans())}
@@ -117,11 +122,36 @@ class C02(Prop):
     def strategy(self, tier):
         return cases(tier)
 
+    def finite_cases(self, tier):
+        """constructors on 7-13 basis sets (beyond the sizes a dense comparison allows): structural promises only"""
+        out = []
+        for n in range(7, 14):
+            for topo in ({"ctor": "linear"}, {"ctor": "binary"}, {"ctor": "t3ns"},
+                         {"ctor": "general_mctdh", "tree_order": 2, "contract_primitive": False, "contract_label": None},
+                         {"ctor": "general_mctdh", "tree_order": 3, "contract_primitive": True, "contract_label": None}):
+                out.append({"structure_only": True, "model": {"names": 0, "sites": [{"k": "spin"} for _ in range(n)], "qnmode": 0}, "topo": topo})
+        return out
+
     def run_case(self, case):
         from renormalizer.tn import TTNO
         from renormalizer.model import OpSum
 
         r = Result()
+        if case.get("structure_only"):
+            m = case["model"]
+            bl = gen.build_basis_list(m)
+            try:
+                ctx = T.build({"model": m, "topo": case["topo"]}, bl, "a")
+            except Exception as e:  # noqa
+                sig, in_lib = lib_exception_sig(e)
+                if not in_lib:
+                    raise
+                r.fail(f"ctor.{case['topo'].get('ctor')}.{sig}", f"{e!r} n={len(bl)}")
+                return r
+            constructor_checks(r, ctx, case["topo"], case["topo"].get("ctor", "random"))
+            r.classes = [f"structure_only.sites={len(bl)}", "ctor=" + case["topo"]["ctor"]]
+            r.nontrivial = True
+            return r
         m = case["model"]
         terms = case["terms"]
         bl = gen.build_basis_list(m)
@@ -228,6 +258,8 @@ class C02(Prop):
         return r
 
     def sample_view(self, case):
+        if case.get("structure_only"):
+            return {"structure_only": True, "sites": len(case["model"]["sites"]), "topo": case["topo"]}
         return {"sites": [s["k"] for s in case["model"]["sites"]], "qnmode": case["model"].get("qnmode"), "n_terms": len(case["terms"]),
                 "first_terms": case["terms"][:2], "topo": case["topo"], "topo2": case["topo2"], "knobs": case["flags"]}
 
